@@ -262,8 +262,8 @@ STANDARD = {
 # recorded sessions (code -> spec, harness/sessiontrace.py): operation weights per property, (traces, steps) quick / thorough
 QUIET = dict(cli=0, redeliver=0, damage=0, restore=0, delete=0, tear=0, cachedir=0)
 PROFILES = {
-    "C01": (dict(QUIET, open=25, load=40, mutate=6, copy=8, drop=3), (0,)),
-    "C02": (dict(QUIET, open=18, load=45, mutate=16, copy=3, drop=2), (0,)),
+    "C01": (dict(QUIET, open=25, load=40, mutate=6, copy=8, drop=3, redeliver=7), (0, 1)),
+    "C02": (dict(QUIET, open=18, load=45, mutate=16, copy=3, drop=2, redeliver=5), (0, 1)),
     "C03": (dict(open=40, redeliver=14, load=5, mutate=0, damage=2, tear=2), (0, 1)),
     "C04": (dict(open=40, redeliver=14, load=5, mutate=0, damage=2, tear=2), (0, 1)),
     "C06": (dict(open=42, cli=12, redeliver=6, load=6, mutate=0, damage=0, restore=0), (0, 1)),
